@@ -205,6 +205,7 @@ func runSegment(worker, work string, spec *fw.Spec, tier string, seed int64, bat
 }
 
 type aggregate struct {
+	stoppedEarly bool // a termination property: enough hangs seen, remaining cases skipped
 	mu           sync.Mutex
 	evaluations  int64
 	cases        int64
@@ -326,6 +327,12 @@ func main() {
 			defer wg.Done()
 			from := b
 			for seg := 0; from < total; seg++ {
+				agg.mu.Lock()
+				cut := agg.stoppedEarly
+				agg.mu.Unlock()
+				if cut {
+					return
+				}
 				if seg > 60 {
 					agg.mu.Lock()
 					agg.inconclusive = append(agg.inconclusive, fmt.Sprintf("batch %d: gave up after %d restarts", b, seg))
@@ -355,7 +362,15 @@ func main() {
 						agg.inconclusive = append(agg.inconclusive, fmt.Sprintf("case %d: watchdog (%d s) fired; not a verdict for this property", so.res.HungCase, spec.CaseTimeoutS))
 						agg.counters["inconclusive_cases"]++
 					}
+					stop := spec.HangIsViolation && agg.hangs >= 4
+					if stop && !agg.stoppedEarly {
+						agg.stoppedEarly = true
+						agg.inconclusive = append(agg.inconclusive, "the run was cut short after 4 cases had exceeded the progress bound (each is reported as a violation); the remaining cases were not executed")
+					}
 					agg.mu.Unlock()
+					if stop {
+						return
+					}
 					from = so.res.NextCase
 					continue
 				}
